@@ -19,6 +19,7 @@ CONSTANTS RtmpPubs, RtspPubs, CustPubs, PsPubs,     \* input sessions (ids)
           PullRetry,                                \* pull_retry_num of API-started pulls (-1 = forever)
           PullAuto,                                 \* auto_stop_pull_after_no_out_ms: -1 never, 0 immediately, > 0 window
           PullEnabled,                              \* relay pull actions are part of the model
+          HookOn,                                   \* a stream hook is installed (it counts as a consumer: Group.hasSubSession)
           MaxTick, MaxAttempts
 
 NetPubs == RtmpPubs \cup RtspPubs
@@ -49,6 +50,8 @@ Init == /\ grp = FALSE /\ inp = "" /\ owner = ""
         /\ act = [name |-> "init"]
 
 HasSub == \E x \in Subs : ss[x] = "in"
+\* Group.hasSubSession(): subscribers of any protocol, or an installed stream hook
+HasOutM == HasSub \/ (HookOn /\ owner # "")
 HasIn == inp # ""
 
 N(ev, x) == [ev |-> ev, id |-> x]
@@ -66,9 +69,12 @@ PullIfNeeded(p, hasIn, hasSub, now) ==
     THEN [p EXCEPT !.flying = TRUE, !.n = @ + 1, !.attempts = @ + 1, !.gen = @ + 1]
     ELSE p
 
+\* a group created now starts its pull module with lastHasOutTs = now
+Created(p) == IF grp THEN p ELSE [PullInit EXCEPT !.lastOut = clock, !.attempts = p.attempts]
+
 \* ---- the pipeline of an input
-AddIn(x)  == <<N("hook_start", x)>>
-DelInEv   == IF owner # "" THEN <<N("hook_stop", owner)>> ELSE <<>>
+AddIn(x)  == IF HookOn THEN <<N("hook_start", x)>> ELSE <<>>
+DelInEv   == IF HookOn /\ owner # "" THEN <<N("hook_stop", owner)>> ELSE <<>>
 
 Obs(ret, notif, hook) == [ret |-> ret, notif |-> notif, hook |-> hook, attempts |-> pull.attempts]
 ObsP(ret, notif, hook, p) == [ret |-> ret, notif |-> notif, hook |-> hook, attempts |-> p.attempts]
@@ -84,7 +90,8 @@ NewPub(x) ==
        ELSE /\ ss' = [ss EXCEPT ![x] = "refused"]
             /\ act' = [name |-> "NewPub", x |-> x, obs |-> Obs("dup", <<>>, <<>>)]
             /\ UNCHANGED <<inp, owner, nh>>
-  /\ UNCHANGED <<closed, pull, clock, nticks>>
+  /\ pull' = Created(pull)
+  /\ UNCHANGED <<closed, clock, nticks>>
 
 \* the server calls OnDel...PubSession once the accepted session's read loop has ended
 DelPub(x) ==
@@ -107,7 +114,8 @@ AddCust(x) ==
        ELSE /\ ss' = [ss EXCEPT ![x] = "refused"]
             /\ act' = [name |-> "AddCust", x |-> x, obs |-> Obs("dup", <<>>, <<>>)]
             /\ UNCHANGED <<inp, owner>>
-  /\ UNCHANGED <<closed, nh, pull, clock, nticks>>
+  /\ pull' = Created(pull)
+  /\ UNCHANGED <<closed, nh, clock, nticks>>
 
 DelCust(x) ==
   /\ x \in CustPubs /\ ss[x] = "in" /\ grp
@@ -129,14 +137,15 @@ StartPs(x) ==
        ELSE /\ ss' = [ss EXCEPT ![x] = "refused"]
             /\ act' = [name |-> "StartPs", x |-> x, obs |-> Obs("dup", <<>>, <<>>)]
             /\ UNCHANGED <<inp, owner>>
-  /\ UNCHANGED <<closed, nh, pull, clock, nticks>>
+  /\ pull' = Created(pull)
+  /\ UNCHANGED <<closed, nh, clock, nticks>>
 
 NewSub(x) ==
   /\ x \in Subs /\ ss[x] = "idle"
   /\ grp' = TRUE
   /\ ss' = [ss EXCEPT ![x] = "in"]
   /\ nh' = [nh EXCEPT ![x] = "started"]
-  /\ pull' = IF PullEnabled THEN PullIfNeeded(pull, HasIn, TRUE, clock) ELSE pull     \* addSub -> pullIfNeeded
+  /\ pull' = IF PullEnabled THEN PullIfNeeded(Created(pull), HasIn, TRUE, clock) ELSE pull     \* addSub -> pullIfNeeded
   /\ act' = [name |-> "NewSub", x |-> x, obs |-> ObsP("ok", <<N("sub_start", x)>>, <<>>, pull')]
   /\ UNCHANGED <<inp, owner, closed, clock, nticks>>
 
@@ -172,40 +181,53 @@ Kick(x) ==
 \* one media message offered by x: forwarded (the stream hook sees it) iff x is the accepted input
 Probe(x) ==
   /\ x \in Pubs /\ (ss[x] = "in" \/ (x \in CustPubs /\ ss[x] = "gone"))
-  /\ act' = [name |-> "Probe", x |-> x,
-             obs |-> [ret |-> IF inp = x THEN "ok" ELSE "rejected", notif |-> <<>>,
-                      hook |-> IF inp = x /\ owner # "" THEN <<N("hook_msg", owner)>> ELSE <<>>,
-                      attempts |-> pull.attempts,
-                      fwd |-> (inp = x /\ HasSub)]]      \* did any attached subscriber receive it
+  /\ LET hk  == IF HookOn /\ inp = x /\ owner # "" THEN <<N("hook_msg", owner)>> ELSE <<>>
+         fwd == inp = x /\ \E y \in Subs : ss[y] = "in" /\ ~closed[y]     \* an attached, un-kicked subscriber received it
+     IN act' = [name |-> "Probe", x |-> x,
+                obs |-> [ret |-> IF hk # <<>> \/ fwd THEN "ok" ELSE "rejected",   \* "ok" = it had an observable effect
+                         notif |-> <<>>, hook |-> hk, attempts |-> pull.attempts, fwd |-> fwd]]
   /\ UNCHANGED <<grp, inp, owner, ss, closed, nh, pull, clock, nticks>>
 
 \* Tick: an empty group whose pull module is not alive is disposed and removed; otherwise Group.Tick
-PullAlive == pull.att \/ pull.flying \/ ShouldStartPull(pull, HasIn, HasSub, clock)
+PullAlive == pull.att \/ pull.flying \/ ShouldStartPull(pull, HasIn, HasOutM, clock)
 Inactive == ~HasIn /\ ~HasSub /\ ~(PullEnabled /\ PullAlive)
+\* what the end of the attached pull session does (DelRtmpPullSession): used by PullEnd and by the
+\* actions that dispose it (stop_relay_pull, kick, auto-stop), whose goroutine runs to completion at once
+EndNotif == <<N("pull_stop", "pull")>>
+EndHook == IF inp = "pull" THEN DelInEv ELSE <<>>
+
 Tick ==
   /\ nticks < MaxTick
   /\ nticks' = nticks + 1
-  /\ IF ~grp THEN /\ act' = [name |-> "Tick", obs |-> Obs("ok", <<>>, <<>>)] /\ UNCHANGED <<grp, pull>>
+  /\ IF ~grp THEN /\ act' = [name |-> "Tick", obs |-> Obs("ok", <<>>, <<>>)] /\ UNCHANGED <<grp, pull, inp, owner>>
      ELSE IF Inactive
-       THEN /\ grp' = FALSE /\ pull' = PullInit
+       THEN /\ grp' = FALSE /\ pull' = [PullInit EXCEPT !.attempts = pull.attempts]
             /\ act' = [name |-> "Tick", obs |-> Obs("ok", <<>>, <<>>)]
+            /\ UNCHANGED <<inp, owner>>
        ELSE /\ grp' = grp
-            /\ pull' = IF ~PullEnabled THEN pull
-                       ELSE LET p1 == IF HasSub THEN [pull EXCEPT !.lastOut = clock] ELSE pull
-                            IN IF ShouldAutoStop(p1, HasSub, clock)
-                                 THEN [p1 EXCEPT !.n = 0]                \* stopPull (an attached session is disposed: PullEnd follows)
-                                 ELSE PullIfNeeded(p1, HasIn, HasSub, clock)
-            /\ act' = [name |-> "Tick", obs |-> ObsP("ok", <<>>, <<>>, pull')]
-  /\ UNCHANGED <<inp, owner, ss, closed, nh, clock>>
+            /\ IF ~PullEnabled THEN /\ pull' = pull /\ UNCHANGED <<inp, owner>>
+                                     /\ act' = [name |-> "Tick", obs |-> Obs("ok", <<>>, <<>>)]
+               ELSE LET p1 == IF HasOutM THEN [pull EXCEPT !.lastOut = clock] ELSE pull
+                    IN IF ShouldAutoStop(p1, HasOutM, clock)
+                         THEN IF p1.att        \* stopPull disposes the attached session: it ends now
+                                THEN /\ pull' = [p1 EXCEPT !.n = 0, !.att = FALSE, !.flying = FALSE]
+                                     /\ inp' = IF inp = "pull" THEN "" ELSE inp
+                                     /\ owner' = IF inp = "pull" THEN "" ELSE owner
+                                     /\ act' = [name |-> "Tick", obs |-> Obs("ok", EndNotif, EndHook)]
+                                ELSE /\ pull' = [p1 EXCEPT !.n = 0] /\ UNCHANGED <<inp, owner>>
+                                     /\ act' = [name |-> "Tick", obs |-> Obs("ok", <<>>, <<>>)]
+                         ELSE /\ pull' = PullIfNeeded(p1, HasIn, HasOutM, clock) /\ UNCHANGED <<inp, owner>>
+                              /\ act' = [name |-> "Tick", obs |-> ObsP("ok", <<>>, <<>>, pull')]
+  /\ UNCHANGED <<ss, closed, nh, clock>>
 
 ---------------------------------------------------------------------------
 (* Relay pull (C17).                                                                              *)
 StartPull ==
   /\ PullEnabled /\ pull.attempts < MaxAttempts
   /\ grp' = TRUE
-  /\ LET p1 == [pull EXCEPT !.api = TRUE]
-         go == ShouldStartPull(p1, HasIn, HasSub, clock)
-     IN /\ pull' = PullIfNeeded(p1, HasIn, HasSub, clock)
+  /\ LET p1 == [Created(pull) EXCEPT !.api = TRUE]
+         go == ShouldStartPull(p1, HasIn, HasOutM, clock)
+     IN /\ pull' = PullIfNeeded(p1, HasIn, HasOutM, clock)
         /\ act' = [name |-> "StartPull", obs |-> ObsP(IF go THEN "ok" ELSE "fail", <<>>, <<>>, pull')]
   /\ UNCHANGED <<inp, owner, ss, closed, nh, clock, nticks>>
 
@@ -214,15 +236,35 @@ StartPull ==
 StopPull ==
   /\ PullEnabled
   /\ IF ~grp
-       THEN /\ act' = [name |-> "StopPull", obs |-> Obs("nogroup", <<>>, <<>>)] /\ UNCHANGED pull
-       ELSE /\ pull' = [pull EXCEPT !.api = FALSE, !.n = 0]
-            /\ act' = [name |-> "StopPull", obs |-> Obs(IF pull.att THEN "ok" ELSE "nosession", <<>>, <<>>)]
-  /\ UNCHANGED <<grp, inp, owner, ss, closed, nh, clock, nticks>>
+       THEN /\ act' = [name |-> "StopPull", obs |-> Obs("nogroup", <<>>, <<>>)] /\ UNCHANGED <<pull, inp, owner>>
+       ELSE IF pull.att
+         THEN /\ pull' = [pull EXCEPT !.api = FALSE, !.n = 0, !.att = FALSE, !.flying = FALSE]
+              /\ inp' = IF inp = "pull" THEN "" ELSE inp
+              /\ owner' = IF inp = "pull" THEN "" ELSE owner
+              /\ act' = [name |-> "StopPull", obs |-> Obs("ok", EndNotif, EndHook)]
+         ELSE /\ pull' = [pull EXCEPT !.api = FALSE, !.n = 0]
+              /\ act' = [name |-> "StopPull", obs |-> Obs("nosession", <<>>, <<>>)]
+              /\ UNCHANGED <<inp, owner>>
+  /\ UNCHANGED <<grp, ss, closed, nh, clock, nticks>>
+
+\* kick_session with the id of the attached pull session: the module is disabled and the session ends
+KickPull ==
+  /\ PullEnabled
+  /\ IF ~grp
+       THEN /\ act' = [name |-> "KickPull", obs |-> Obs("nogroup", <<>>, <<>>)] /\ UNCHANGED <<pull, inp, owner>>
+       ELSE IF pull.att
+         THEN /\ pull' = [pull EXCEPT !.api = FALSE, !.n = 0, !.att = FALSE, !.flying = FALSE]
+              /\ inp' = IF inp = "pull" THEN "" ELSE inp
+              /\ owner' = IF inp = "pull" THEN "" ELSE owner
+              /\ act' = [name |-> "KickPull", obs |-> Obs("ok", EndNotif, EndHook)]
+         ELSE /\ act' = [name |-> "KickPull", obs |-> Obs("nosession", <<>>, <<>>)]
+              /\ UNCHANGED <<pull, inp, owner>>
+  /\ UNCHANGED <<grp, ss, closed, nh, clock, nticks>>
 
 \* the origin accepts the attempt in flight: AddRtmpPullSession under the group lock
 PullOk ==
   /\ PullEnabled /\ pull.flying /\ ~pull.att
-  /\ IF ~HasIn
+  /\ IF ~HasIn /\ pull.api       \* (a module that was disabled while the attempt was in flight refuses it)
        THEN /\ inp' = "pull" /\ owner' = "pull"
             /\ pull' = [pull EXCEPT !.att = TRUE]
             /\ act' = [name |-> "PullOk", obs |-> Obs("ok", <<N("pull_start", "pull")>>, AddIn("pull"))]
@@ -260,7 +302,7 @@ Next == \/ \E x \in NetPubs : NewPub(x) \/ DelPub(x)
         \/ \E x \in Subs : NewSub(x) \/ DelSub(x)
         \/ \E x \in Sessions : Kick(x)
         \/ \E x \in Pubs : Probe(x)
-        \/ Tick \/ StartPull \/ StopPull \/ PullOk \/ PullFail \/ PullEnd \/ Advance
+        \/ Tick \/ StartPull \/ StopPull \/ KickPull \/ PullOk \/ PullFail \/ PullEnd \/ Advance
 Spec == Init /\ [][Next]_vars
 
 ---------------------------------------------------------------------------
